@@ -194,3 +194,28 @@ impl<T: ?Sized + fmt::Display> fmt::Display for Arc<T> { fn fmt(&self, f: &mut f
 impl<T: Default> Default for Arc<T> { fn default() -> Self { Arc::new(T::default()) } }
 impl From<std::borrow::Cow<'_, str>> for Arc<str> { fn from(s: std::borrow::Cow<'_, str>) -> Self { Arc::from(s.into_owned()) } }
 
+
+// ---------------------------------------------------------------------------------------------
+// Single-threaded model of std::sync::RwLock.  Kani has no threads, so a lock is never contended
+// and never poisoned; std's futex implementation however keeps its state word inside the (heap
+// resident) `Mut` object, CBMC cannot resolve it there and explores `write_contended` /
+// `read_contended` spin loops and futex syscalls on every cell access (measured: ~20 s per
+// assignment).  The model grants every request.  What it cannot show: anything about concurrency
+// (C16 is not claimed).
+pub struct RwLock<T> { v: core::cell::UnsafeCell<T> }
+unsafe impl<T: Send> Send for RwLock<T> {}
+unsafe impl<T: Send + Sync> Sync for RwLock<T> {}
+#[derive(Debug)]
+pub struct NeverPoisoned;
+pub struct RwLockReadGuard<'a, T> { r: &'a T }
+pub struct RwLockWriteGuard<'a, T> { r: &'a mut T }
+impl<T> Deref for RwLockReadGuard<'_, T> { type Target = T; fn deref(&self) -> &T { self.r } }
+impl<T> Deref for RwLockWriteGuard<'_, T> { type Target = T; fn deref(&self) -> &T { self.r } }
+impl<T> std::ops::DerefMut for RwLockWriteGuard<'_, T> { fn deref_mut(&mut self) -> &mut T { self.r } }
+impl<T> RwLock<T> {
+    pub fn new(t: T) -> Self { RwLock { v: core::cell::UnsafeCell::new(t) } }
+    pub fn read(&self) -> Result<RwLockReadGuard<'_, T>, NeverPoisoned> { Ok(RwLockReadGuard { r: unsafe { &*self.v.get() } }) }
+    pub fn write(&self) -> Result<RwLockWriteGuard<'_, T>, NeverPoisoned> { Ok(RwLockWriteGuard { r: unsafe { &mut *self.v.get() } }) }
+}
+impl<T> From<T> for RwLock<T> { fn from(t: T) -> Self { RwLock::new(t) } }
+impl<T: fmt::Debug> fmt::Debug for RwLock<T> { fn fmt(&self, f: &mut fmt::Formatter<'_>) -> fmt::Result { unsafe { &*self.v.get() }.fmt(f) } }
